@@ -85,6 +85,7 @@ struct Inner {
     credit: Option<usize>,        // None = unlimited
     max_write: usize,
     write_fail: Option<WriteFail>,
+    fail_after: Option<(usize, WriteFail)>, // writes fail once the tap holds this many bytes
     write_waker: Option<Waker>,
     // observation
     reader_dropped: Option<u64>,
@@ -115,6 +116,7 @@ impl Conn {
             credit: None,
             max_write: usize::MAX,
             write_fail: None,
+            fail_after: None,
             write_waker: None,
             reader_dropped: None,
             writer_dropped: None,
@@ -304,6 +306,11 @@ impl Conn {
         }
     }
 
+    /// Writes succeed until the tap holds `n` bytes, then fail with `kind`.
+    pub fn fail_writes_after(&self, n: usize, kind: WriteFail) {
+        self.0.lock().unwrap().fail_after = Some((n, kind));
+    }
+
     pub fn reader_dropped(&self) -> bool {
         self.0.lock().unwrap().reader_dropped.is_some()
     }
@@ -401,6 +408,11 @@ impl AsyncWrite for PipeWriter {
         bump_activity();
         let mut g = self.0.lock().unwrap();
         g.stats.writes += 1;
+        if let Some((n, kind)) = g.fail_after {
+            if g.tap.len() >= n {
+                g.write_fail = Some(kind);
+            }
+        }
         if let Some(f) = g.write_fail {
             g.stats.write_errors += 1;
             if g.write_err_observed.is_none() {
@@ -422,6 +434,9 @@ impl AsyncWrite for PipeWriter {
             return Poll::Ready(Ok(0));
         }
         let mut n = buf.len().min(g.max_write);
+        if let Some((limit, _)) = g.fail_after {
+            n = n.min(limit - g.tap.len());
+        }
         if let Some(c) = g.credit {
             if c == 0 {
                 g.stats.write_pending += 1;
